@@ -340,8 +340,12 @@ func observe(c codec, data []byte, sk srcKind, sched []int, rng *rand.Rand) (o o
 		o.Left = -1
 	}
 	// stickiness and Close
-	for k := 0; k < 2; k++ {
-		cnt, err := zr.Read(make([]byte, 8))
+	// (a zero-length Read in between may answer (0, nil) or the error, but must not disturb the latch)
+	for _, sz := range []int{8, 0, 8, 0, 1} {
+		cnt, err := zr.Read(make([]byte, sz))
+		if sz == 0 && cnt == 0 && err == nil {
+			continue
+		}
 		if cnt != 0 || err != o.Err {
 			if o.Bad == "" && o.Cls != "stuck" && o.Cls != "outlimit" {
 				o.Bad = fmt.Sprintf("after error %v a later Read returned (%d, %v)", o.Err, cnt, err)
